@@ -21,7 +21,7 @@ content is mostly kept within the screen (by a clip, or by aiming at it; runs en
 column and on its last line, an erase reaching the screen's edge with SKIP cells beyond) - the hypothesis of
 flush_spec_screen - and sometimes reaches beyond it (only completion and the reset are claimed then).
 exhaustive: every program of <= 3 operations over a reduced alphabet on a 2x6 buffer x {oracle stay, oracle move} x
-{direct, write_str}, then `flush`.
+{direct, write_str} and two terminals smaller than the buffer (grid 2x4, mock terminal 1x5), then `flush`.
 Prints one JSON line: the input distribution actually produced.
 """
 import argparse, random, json, itertools, collections
@@ -507,7 +507,7 @@ def small_screen_history():
 
 
 def exhaustive():
-    """Every program of <= 3 drawing operations over a reduced alphabet on a 2x6 buffer, four terminal configurations."""
+    """Every program of <= 3 drawing operations over a reduced alphabet on a 2x6 buffer, six terminal configurations."""
     alpha = [
         "text_at 0 0 78efbca1797a",      # x + fullwidth A + y z   (columns 0 | 1-2 | 3 | 4)
         "text_at 0 -1 61efbca162",       # a + fullwidth A + b, clipped on the left after `a`
@@ -523,7 +523,8 @@ def exhaustive():
         "setpen fg=1,b=1",
         "mask 0 2 1 1",
     ]
-    terms = ["term 2 6 0 0 NONE 1", "term 2 6 2147483647 0 bg=2 2", "term 2 6 0 1 NONE 3", "term 3 8 2147483647 1 fg=3,rv=1 4"]
+    terms = ["term 2 6 0 0 NONE 1", "term 2 6 2147483647 0 bg=2 2", "term 2 6 0 1 NONE 3", "term 3 8 2147483647 1 fg=3,rv=1 4",
+             "term 2 4 2147483647 0 NONE 5", "termm 1 5 fg=2 6"]   # a terminal smaller than the buffer (grid: columns; mock: lines, too)
     out, n = [], 0
     for term in terms:
         for k in (1, 2, 3):
@@ -542,7 +543,7 @@ lines = []
 info = {}
 if a.tier == "exhaustive":
     lines, n = exhaustive()
-    info = {"histories": n, "exhaustive_bound": "all programs of <= 3 operations over a 13-operation alphabet on a 2x6 buffer x 4 terminal configurations, then flush"}
+    info = {"histories": n, "exhaustive_bound": "all programs of <= 3 operations over a 13-operation alphabet on a 2x6 buffer x 6 terminal configurations (two of them smaller than the buffer), then flush"}
 else:
     N = 1300 if a.tier == "quick" else 8000
     W = 150 if a.tier == "quick" else 600
